@@ -206,6 +206,9 @@ func (s *subRun) producePre(kind string) int {
 			s.n.SeqD.Script = append(s.n.SeqD.Script, world.SeqReply{Kind: "empty", TsMs: lt + 1000})
 		} else {
 			b := []byte("tx-" + kind)
+			if strings.HasPrefix(kind, "HUGE") { // a transaction that makes its block's data blob larger than the DA client's limit
+				b = append(b, []byte(strings.Repeat("x", 900))...)
+			}
 			s.w.IDs.Name(b, kind)
 			s.n.SeqD.Script = append(s.n.SeqD.Script, world.SeqReply{Kind: "batch", Txs: [][]byte{b}, TsMs: lt + 1000})
 		}
@@ -459,6 +462,30 @@ func RunSubmitScenarios(c *Ctx) {
 						c.Count("scenarios", 1)
 					})
 				}
+			}
+			// a block whose data is larger than what the DA client accepts, between blocks that fit (the node reaches the DA
+			// double through the JSON-RPC client's own logic): everything in front of it is submitted and included, nothing
+			// behind it is ever reported as submitted or included
+			if limit == 0 {
+				synctest.Run(func() {
+					s := newSubRun(c, fmt.Sprintf("oversize/ih%d", ih), ih, limit, world.F{"src": "oversize"})
+					defer s.finish()
+					s.n.DAOverride = proxiedDA(s.w.DA, 700)
+					if s.start() != nil {
+						return
+					}
+					s.produce("none")
+					s.produce("a")
+					hugeH := s.height() + 1
+					s.produce("HUGE")
+					s.produce("b")
+					s.produce("none")
+					for i := 0; i < 12 && !s.down(); i++ {
+						s.tick()
+					}
+					s.c.Tr.Emit("OversizeEnd", world.F{"node": "seq", "huge": hugeH, "up": !s.down()})
+					c.Count("scenarios", 1)
+				})
 			}
 			// submissions that are never answered (requests swallowed by a short outage) while the limit is reached: the
 			// node gives such a call up after its own deadline, sends again, and production resumes
